@@ -1183,6 +1183,14 @@ def impl_multi(case):
             pr["clash"], pr["located"] = clash_probe(case["out_src"], search)
         except BaseException as e:  # noqa
             pr["clash"], pr["located"] = ["probe-" + type(e).__name__], []
+        if not case["eval"]:
+            # input nodes are MOVED into the output tree and the input tree is re-annotated before every pair: an opaque node
+            # (a constant inside an annotation / value, also one that comes from the template) of the input tree that
+            # carries a later pair's path is reachable from the output tree too
+            try:
+                pr["clash"] = pr["clash"] + input_clash_probe(case["in_src"], search, case["wrap"])
+            except BaseException as e:  # noqa
+                pr["clash"] = pr["clash"] + ["probe-" + type(e).__name__]
         if case["eval"]:
             pr["eval"] = eval_probe(case["in_src"], ip) if "." not in ip else {"kind": "dotted"}
         else:
@@ -1195,6 +1203,23 @@ def impl_multi(case):
     res["probes"] = probes
     res["oracle"] = oracle_multi(case, res)
     return res
+
+
+def input_clash_probe(in_src, search, wrap):
+    """opaque nodes of the (annotated) input tree whose `_location` is the search path; template constants named like the
+    last component (they are annotated, with whatever `parent_location` holds then, by the next `annotate_ancestry`)"""
+    from cdd.shared.source_transformer import ast_parse
+
+    tree = ast_parse(in_src, filename="i.py")
+    hits = []
+    for n in ast.walk(tree):
+        if isinstance(n, ast.expr) and getattr(n, "_location", None) == search:
+            hits.append("input:" + type(n).__name__)
+    if wrap is not None and template_ok(wrap):
+        for n in ast.walk(ast.parse(wrap.replace("{output_param}", "T"), mode="eval")):
+            if isinstance(n, ast.Constant) and n.value == search[-1]:
+                hits.append("template:Constant")
+    return hits
 
 
 def pair_spec(case, k, before, in_tree, probe):
@@ -1237,6 +1262,49 @@ def pair_spec(case, k, before, in_tree, probe):
     cause = root_cause({"eval": case["eval"]}, {"probe": probe}, facts, in_tree, in_cands, any(c["kind"] == "stmt" for c in out_cands),
                        {(node_at(before, c["path"]).lineno, node_at(before, c["path"]).col_offset) for c in out_cands})
     return "ok", {"op": op, "ip": ip, "out_cands": out_cands, "in_cands": in_cands, "exp": exp, "facts": facts, "out_kind": out_kind, "cause": cause}
+
+
+def phantom_sites(before, in_tree, sp, c0):
+    """paths of the `defaults` entries the phantom write can hit for this pair: the FIRST definition carrying the slot
+    function's dotted path, when it is not the one that gets the slot, has a parameter with the input's name (an annotated
+    assignment with a value) whose right-aligned default exists"""
+    out = set()
+    for ic in sp["in_cands"]:
+        n = node_at(in_tree, ic["path"])
+        if not (isinstance(n, ast.AnnAssign) and n.value is not None and isinstance(n.target, ast.Name)):
+            continue
+        t = n.target.id
+        fnpaths = sorted({c["fnpath"] for c in sp["out_cands"] if c["kind"] == "param"})
+        if not fnpaths:
+            continue
+        names = dotted(before, fnpaths[0])
+        # every FunctionDef with that dotted path, in source order
+        same = []
+
+        def walk(body, bpath):
+            for i, st in enumerate(body):
+                p_ = bpath + (i,)
+                if isinstance(st, ast.FunctionDef) and dotted(before, p_) == names:
+                    same.append(p_)
+                elif isinstance(st, ast.ClassDef):
+                    walk(st.body, p_ + ("body",))
+        walk(before.body, ("body",))
+        if not same:
+            continue
+        first = same[0]
+        if c0 is not None and c0.get("fnpath") == first:
+            continue
+        fn = node_at(before, first)
+        slot_name = sp["op"][-1]
+        if any(x.arg == slot_name for x in fn.args.args + fn.args.kwonlyargs):
+            continue
+        for j, x in enumerate(fn.args.args):
+            if x.arg == t:
+                k = j - (len(fn.args.args) - len(fn.args.defaults))
+                if 0 <= k < len(fn.args.defaults):
+                    out.add(first + ("args", "defaults", k))
+                break
+    return out
 
 
 def multi_causes(case, res, specs):
@@ -1353,9 +1421,18 @@ def oracle_multi(case, res):
             claimed.append(c0["path"])
     all_cands = [c for sp in specs for c in sp["out_cands"]]
     outside = [d for d in diffs if not any(c0 is not None and within(d, c0) for c0 in chosen)]
+    # per pair: where the phantom default write of `visit_FunctionDef` is due (root-cause marker for a changed default)
+    phantom = set()
+    if not case["eval"]:
+        for sp, c0 in zip(specs, chosen):
+            phantom |= phantom_sites(before, in_tree, sp, c0)
     seen = set()
     for d in outside:
-        cl = classify_outside(before, after, d, all_cands)
+        if any(d[: len(ph)] == ph for ph in phantom):
+            # the mechanism of C13-phantom-default, whatever the other pairs of the call select in that definition
+            cl = {"where": "default", "of": "same-path-definition"}
+        else:
+            cl = classify_outside(before, after, d, all_cands)
         if cl["where"] in ("docstring", "module-docstring"):
             bo = black_only(case["out_src"])
             if bo is not None:
@@ -1395,8 +1472,16 @@ def oracle_multi(case, res):
                     if c["dpath"] is not None:
                         bd, ad = node_at(before, c["dpath"]), node_at(after, c["dpath"])
                         if dump(ad) != dump(bd) and not (val is not None and dump(ad) == dump(val)):
-                            why.append("default %s, expected %s or the input's value" % (show(ad), show(bd)))
-                            continue
+                            if c["dpath"] in phantom:
+                                # the phantom default write of ANOTHER pair landed on the default of this pair's slot
+                                sigp = {"kind": "frame", "where": "default", "of": "same-path-definition"}
+                                if json.dumps(sigp, sort_keys=True) not in seen:
+                                    seen.add(json.dumps(sigp, sort_keys=True))
+                                    fails.append((sigp, "the default at %s changed (%s → %s) by the phantom write of another pair of the call (%s)" % (
+                                        "/".join(map(str, c["dpath"])), show(bd), show(ad), label)))
+                            else:
+                                why.append("default %s, expected %s or the input's value" % (show(ad), show(bd)))
+                                continue
                     slot_ok = True
                 else:
                     own = b_node.target.id if isinstance(b_node, ast.AnnAssign) else b_node.targets[0].id
